@@ -83,7 +83,7 @@ func init() {
 		words := []string{"compress", "archive", "directory", "git", "commit", "list", "files", "find", "search", "text", "docker", "run", "download", "network", "disk", "usage", "show", "the", "a", "how", "to", "café", "résumé", "σύνολο", "файл", "копировать", "zip", "2fa", "k8s", "comprss", "fles", "seach", "tar.gz", "node.js"}
 		rng := rand.New(rand.NewSource(20))
 		var queries []string
-		for i := 0; i < 60; i++ {
+		for i := 0; i < 60*scale; i++ {
 			n := 1 + rng.Intn(6)
 			var ws []string
 			for j := 0; j < n; j++ {
